@@ -77,3 +77,7 @@ package local
 //@   modifies nothing
 //@   ensures [current] result1 == nil ==> smhas(CLS, box(cluster)) && smhas(&theUC.conditions, box(name)) && box(result) == smget(&theUC.conditions, box(name))
 //@   ensures [found] smhas(CLS, box(cluster)) && smhas(&theUC.conditions, box(name)) ==> result1 == nil
+
+//@ func NewLocalStore props C19, C18
+//@   modifies nothing
+//@   ensures [fresh_empty] result != nil && typeis(result, "*localStore") && unbox(result, "*localStore") != nil && fresh(unbox(result, "*localStore"))
